@@ -2,6 +2,8 @@
 //
 //	E1 Tables.v : tables and constants the model computes with
 //	E2 Scalar.v : scalar skeletons of index arithmetic (see scalar.go)
+//	E3 Wrappers.v : the entry-point wrappers of template.go as terms of a small Go fragment
+//	               (see wrappers.go)
 //
 // Constructs are located by role (a package var's initialiser, the arguments of the
 // strings.Replace calls in a named function, ...), never by line.  If a construct
@@ -444,13 +446,14 @@ func main() {
 
 	tables := genTables(p)
 	scalar := genScalar(p)
+	wrappers := genWrappers(p)
 
 	if len(problems) > 0 {
 		for _, s := range problems {
 			fmt.Fprintln(os.Stderr, "go2v: PROBLEM:", s)
 		}
 	}
-	for name, content := range map[string]string{"Tables.v": tables, "Scalar.v": scalar} {
+	for name, content := range map[string]string{"Tables.v": tables, "Scalar.v": scalar, "Wrappers.v": wrappers} {
 		ch, err := writeIfChanged(filepath.Join(*out, name), []byte(content))
 		if err != nil {
 			fmt.Fprintln(os.Stderr, "go2v:", err)
